@@ -87,6 +87,13 @@ class Sidecars:
         src = open(path, encoding="utf-8").read()
         self.sources[path] = src
         tree = ast.parse(src)
+        self._consts = {}
+        for node in tree.body:
+            if isinstance(node, ast.Assign) and len(node.targets) == 1 and isinstance(node.targets[0], ast.Name):
+                try:
+                    self._consts[node.targets[0].id] = self._const(node.value)
+                except Exception:
+                    pass
         for node in tree.body:
             if isinstance(node, ast.ClassDef):
                 for d in node.decorator_list:
@@ -95,7 +102,7 @@ class Sidecars:
             elif isinstance(node, ast.FunctionDef):
                 for d in node.decorator_list:
                     if isinstance(d, ast.Call) and isinstance(d.func, ast.Name) and d.func.id == "loop":
-                        key = ast.literal_eval(d.args[0])
+                        key = self._const(d.args[0])
                         ordinal = ast.literal_eval(d.args[1])
                         self.loops[(key, ordinal)] = LoopAst(key, ordinal, [a.arg for a in node.args.args], _clauses(node), path)
             elif isinstance(node, ast.Expr) and isinstance(node.value, ast.Call) and isinstance(node.value.func, ast.Name) \
@@ -106,8 +113,17 @@ class Sidecars:
                     else:
                         self.attr_sorts[kw.arg] = ast.literal_eval(kw.value)
 
+    def _const(self, e):
+        if isinstance(e, ast.Constant):
+            return e.value
+        if isinstance(e, ast.Name):
+            return self._consts[e.id]
+        if isinstance(e, ast.BinOp) and isinstance(e.op, ast.Add):
+            return self._const(e.left) + self._const(e.right)
+        return ast.literal_eval(e)
+
     def _contract(self, node: ast.ClassDef, d: ast.Call, path: str):
-        key = ast.literal_eval(d.args[0])
+        key = self._const(d.args[0])
         props, opts = [], {}
         for kw in d.keywords:
             if kw.arg == "props":
